@@ -1173,10 +1173,14 @@ class Formulas(Family):
                 env["Unew"] = col
                 args = vals
             else:
-                scal = [q for q in params if q != "iteration"]
+                # the driver op takes its arguments in the order of the PINNED definition's parameters; the expression read
+                # from the source may list (a subset of) the same names in another order - bind by name on both sides
+                scal = _pinned_params().get(c["name"]) or [q for q in params if q != "iteration"]
+                extra = [q for q in params if q != "iteration" and q not in scal]
                 if c["name"] in ("fit",):  # keep the divisor away from 0
                     vals = [v if v != 0 else 2.5 for v in vals]
-                for q, v in zip(scal, vals):
+                vals = (vals + [1.5, -0.75, 2.25, 0.5, 3.0])[:len(scal) + len(extra)]
+                for q, v in zip(scal + extra, vals):
                     # the translator hands out the expression over the parameter names (`M.norm()` is `normM`)
                     env[q] = np.float64(v)
                 args = vals[:len(scal)]
@@ -1201,10 +1205,29 @@ class Formulas(Family):
                 mv = m["bool"]
             else:
                 mv = unbits(m["float"])
-                ok = (math.isnan(mv) and math.isnan(float(v))) or approx(mv, float(v), 1e-15, 0.0)
+                # an algebraically equal rewrite of a formula differs by rounding relative to the OPERANDS (1 - a/b against
+                # (b - a)/b cancels); a misread or changed formula is O(1) off
+                mag = max([1.0, abs(mv), abs(float(v))] + [abs(float(x)) for x in c["vals"]]) if math.isfinite(mv) and math.isfinite(float(v)) else 1.0
+                ok = (math.isnan(mv) and math.isnan(float(v))) or mv == float(v) or abs(mv - float(v)) <= 1e-13 * mag
             out.append(Verdict("ok" if ok else "corr", "" if ok else f"generated {c['name']} differs from the Python expression",
                                float(v) if not isinstance(v, (bool, np.bool_)) else bool(v), mv, None, tags))
         return out
+
+
+_PINNED_PARAMS = None
+
+
+def _pinned_params():
+    """{definition: [names of its scalar parameters in order]} of the pinned CP-ALS formulas (the order the driver op expects)"""
+    global _PINNED_PARAMS
+    if _PINNED_PARAMS is None:
+        import re
+        from harness.lib import ROOT
+        txt = (ROOT / "harness" / "translate" / "pinned" / "CpAlsFormulas.lean").read_text()
+        _PINNED_PARAMS = {}
+        for m in re.finditer(r"^def (\w+)((?:\s*\([^)]*\))*)\s*:", txt, flags=re.M):
+            _PINNED_PARAMS[m.group(1)] = [q for q, t in re.findall(r"\((\w+) : ([^)]*)\)", m.group(2)) if t.strip() == "α"]
+    return _PINNED_PARAMS
 
 
 def families():
